@@ -572,8 +572,11 @@ func vc17RbfCase(t *rapid.T, st *vstats.Collector, c *vc17Chan, k int) {
 	}
 
 	// ---- verdict ---------------------------------------------------------
-	labels := append([]string{}, c.labels...)
-	label := func(l string) { labels = append(labels, l) }
+	var labels []string
+	label := func(l string) { labels = append(labels, "rbf:"+l) }
+	for _, l := range c.labels {
+		label(l)
+	}
 	label(fmt.Sprintf("close_asked_by=%d", closeInit))
 	for x := 0; x < 2; x++ {
 		if len(sides[x].est.unknown) > 0 {
